@@ -269,6 +269,9 @@ def spec_sweep(ctx, cirq, t, obs, code):
         top = {'X': 'product', 'Z': 'zip', 'ZL': 'ziplongest', 'C': 'concat', 'L': 'linspace', 'P': 'points', 'LS': 'list', 'U': 'unit'}
         ctx.violation('sweep:enumeration:' + top[culprit(cirq, t)], f'param_tuples() of {obs["sweep"]!r} is not what its definition describes: '
                       f'got {obs["tuples"][:6]} expected {[[(k, float(v)) for k, v in r] for r in ref[:6]]}', rep)
+    rows_keys = {tuple(k for k, _ in r) for r in obs['tuples']}
+    if len(rows_keys) == 1 and list(next(iter(rows_keys))) != obs['keys']:
+        ctx.violation('sweep:keys', f'{obs["sweep"]!r}.keys = {obs["keys"]} but every assignment it enumerates assigns {list(next(iter(rows_keys)))}', rep)
     if obs['len'] != len(obs['tuples']):
         ctx.violation('sweep:len-vs-iteration:' + culprit_len(cirq, t), f'len({obs["sweep"]!r}) = {obs["len"]} but it iterates {len(obs["tuples"])} assignments', rep)
     if not (rows_equal(obs['listed'], obs['tuples'], 0) and rows_equal(obs['to_resolvers'], obs['tuples'], 0)):
@@ -850,6 +853,8 @@ def resolver_stream(ctx, cirq, n):
         q, qt, g, g1, pnames, isp = rows[qi]
         once = 10 < code < 20
         what = names.get(code - 10 if once else code, str(code))
+        if code > 30:
+            what = 'memo-model:' + names.get(code - 30, str(code))
         bname = f'correspondence:value_of{"_once" if once else ""}:{what}'
         bdetail = f'resolver {dict(entries)!r}, expr {q}: implementation {(g1 if once else g)[:2]} vs model'
         if code == 20:
